@@ -88,8 +88,8 @@ func (ex *Exec) callFunc(fr *Frame, fn *ssa.Function, free []Val, args []Val, st
 }
 
 func shortFuncName(fn *ssa.Function) string {
-	if fn.Pkg != nil {
-		return fn.RelString(fn.Pkg.Pkg)
+	if p := fnPkg(fn); p != nil {
+		return fn.RelString(p)
 	}
 	return fn.String()
 }
@@ -148,6 +148,19 @@ func (ex *Exec) freshResults(sig *types.Signature, st *State) Val {
 
 // invoke: a call through an interface, resolved by the interface method's contract.
 func (ex *Exec) invoke(fr *Frame, c *ssa.CallCommon, recv Val, args []Val, st *State, reach Term, pos token.Pos) Val {
+	// narrowing: when the dynamic type is known at this point (the interface value was built from a concrete
+	// value on this path), the call is resolved statically to the concrete method
+	if rt, ok := recv.(Scalar); ok {
+		if h, a := splitApp(rt.T.S); h == "mk-iface" && len(a) == 2 {
+			if id, ok := litVal(a[0]); ok && id >= 1 && int(id) <= len(ex.vc.typeByID) {
+				dt := ex.vc.typeByID[id-1]
+				if m := ex.prog.SSA.LookupMethod(dt, c.Method.Pkg(), c.Method.Name()); m != nil && (len(m.Blocks) > 0 || ex.prog.Contracts.Funcs[m.String()] != nil) {
+					self := ex.unboxIface(rt.T, dt)
+					return ex.callFunc(fr, m, nil, append([]Val{self}, args...), st, reach, pos)
+				}
+			}
+		}
+	}
 	key := c.Method.FullName()
 	ct := ex.prog.Contracts.Funcs[key]
 	if ct == nil {
@@ -195,7 +208,7 @@ func (ex *Exec) applyContract(fr *Frame, c *Contract, names []string, args []Val
 		}
 	}
 	if tpkg == nil {
-		tpkg = fr.fn.Pkg.Pkg
+		tpkg = fnPkg(fr.fn)
 	}
 	vars := map[string]Val{}
 	for i, n := range names {
